@@ -20,7 +20,7 @@ inner solver's returned status):
     flight, then per further outer iteration 1 + init + A_init events and no inner iteration;
   * an inner solve that returned Interrupted is the last one; ALM's status is Interrupted iff it was;
   * the returned x, y satisfy the C03 relations w.r.t. the last inner solve's (y_in, Σ, err_z), and C01's KKT
-    monitor when ALM reports Converged.
+    monitor when ALM reports Converged with the ApproxKKT criterion.
 Findings (printed as KNOWN-FINDING while open): initial step-size backtracking not interruptible (same key as the
 single-solver check); ALM keeps starting inner solves after stop() when each one exits at its first check with a
 status that outranks Interrupted (key C19-alm-continues-after-stop-when-inner-exits-naturally).
@@ -264,7 +264,8 @@ def outputs_monitor(op, op_line, out_line, r, st):
     if m:
         return f'outputs of the ALM solve (status {r["status"]}): {m if isinstance(m, str) else m[0]}'
     bump('c03_relations_checked')
-    if r['status'] == 'Converged':
+    if r['status'] == 'Converged' and op.nat('crit', 0) == 0:
+        # C01's certificate is stated for the ApproxKKT criterion (ε = ‖γ⁻¹(x−x̂) + ∇ψ(x̂) − ∇ψ(x)‖∞)
         m = c01.monitor(op_line, out_line, {})
         if m:
             return m
@@ -307,7 +308,7 @@ def alm_stage(rep, broken, tier):
         broken.append('ALM stop harness does not compile against the working tree: ' + log[-1500:])
         return
     per = {}
-    nb = 2 if tier == 'quick' else 10
+    nb = 2 if tier == 'quick' else 30
     for solver in SOLVERS:
         rng = random.Random(C.seed() * 50021 + 19 + SOLVERS.index(solver) + (1000 if tier == 'thorough' else 0))
         ops = [l for l in CORPUS if f'solver={solver} ' in l] + sweep_ops(rng, exe, solver, nb)
